@@ -24,8 +24,17 @@ func init() {
 	}
 }
 
+// fixed sources checked before the generated ones (explicit text, "X <hex>")
+var c06Corpus = []string{
+	"x;//\t", "x;// \t", "x;//\u00a0", "x;//\v\f", "x //\t\ny", "//\t\nx", "{ x //\t\n}", // white-space-only comments (repaired defect)
+	"// c\n\n\nx\n\n// d\n", "a;b;c", "if (a) b; else c", "x = `a\nb`;",
+}
+
 func genC06(r *rng, n int, tier string) []string {
 	out := []string{}
+	for _, s := range c06Corpus {
+		out = append(out, "X "+hx(s))
+	}
 	for i := 0; i < n; i++ {
 		seed := r.next() % (1 << 40)
 		switch r.intn(5) {
